@@ -30,7 +30,8 @@ CONSTANTS
   WPhase,       \* [1..NW -> {1, 2}]: phase-2 threads run only after crash + restart
   RKey, RPhase, \* the same for readers
   DirOf,        \* [1..NK -> directory id]
-  MaxCrashes, MaxFaults
+  MaxCrashes, MaxFaults,
+  MaxCancels    \* how many times a writer may notice a cancelled context and give up (shares the counter of faults)
 
 W == 1..NW
 R == 1..NR
@@ -183,6 +184,21 @@ StreamWriteFault(w) ==
   /\ UNCHANGED <<dest, dirs, wpc, rpc, rres, phase, crashes>>
   /\ Log("w", w, "fault:swrite", "err")
 
+(* environment: the context the writer was given is cancelled and the writer NOTICES it before its next   *)
+(* filesystem operation.  Cancellation permits a writer to give up and nothing else: it leaves by the      *)
+(* way an abandoned stream leaves (close if still open, remove the staging file, return an error).  A      *)
+(* writer that does not notice simply carries on (the ordinary actions); the code at this commit never    *)
+(* looks at its context, so the replay of cancellation is an enumeration of cancel points with the        *)
+(* observable facts checked (vh fscancel), and this action states what any noticing writer may do.        *)
+GiveUp(w) ==
+  /\ MaxCancels > 0 /\ faults < MaxCancels /\ Runs(WPhase[w])
+  /\ wpc[w] \in {"write", "swrite", "commit", "close", "rename", "mkdir", "rename2"}
+  /\ faults' = faults + 1
+  /\ wret' = [wret EXCEPT ![w] = "err"]
+  /\ wpc' = [wpc EXCEPT ![w] = IF wpc[w] \in {"write", "swrite", "commit", "close"} THEN "close" ELSE "remove"]
+  /\ UNCHANGED <<stag, dest, dirs, wn, rpc, rres, phase, crashes>>
+  /\ Log("w", w, "cancel:" \o wpc[w], "err")
+
 (* environment: the process dies; a new process opens the same directory *)
 Crash ==
   /\ crashes < MaxCrashes /\ phase = 1
@@ -201,7 +217,7 @@ ReadOpen(r) ==
 
 Next ==
   \/ \E w \in W : Create(w) \/ Write(w) \/ StreamWrite(w) \/ CallCommit(w) \/ Close(w) \/ Remove(w)
-                  \/ Rename(w) \/ Mkdir(w) \/ Rename2(w) \/ Fault(w) \/ StreamWriteFault(w)
+                  \/ Rename(w) \/ Mkdir(w) \/ Rename2(w) \/ Fault(w) \/ StreamWriteFault(w) \/ GiveUp(w)
   \/ \E r \in R : ReadOpen(r)
   \/ Crash
 
